@@ -137,16 +137,42 @@ var (
 	affVals = []string{"c0", "c1", "perf", "batch", "*", "[a-", "", "prod*", "default", "kube-system", "(", "c?"}
 )
 
+var lastAffOp string
+
 func (g *Gen) affExpr(indent string) string {
 	var b strings.Builder
-	fmt.Fprintf(&b, "%skey: %q\n", indent, sysgen.Pick(g.R, affKeys))
-	if op := sysgen.Pick(g.R, affOps); op != "" || g.R.Chance(1, 2) {
+	key := sysgen.Pick(g.R, affKeys)
+	if g.R.Chance(3, 4) {
+		key = sysgen.Pick(g.R, affKeys[:8])
+	}
+	fmt.Fprintf(&b, "%skey: %q\n", indent, key)
+	op := sysgen.Pick(g.R, affOps)
+	if (op == "" || op == "Bogus") && g.R.Chance(3, 4) {
+		op = sysgen.Pick(g.R, affOps[:11])
+	}
+	lastAffOp = op
+	if op != "" || g.R.Chance(1, 2) {
 		fmt.Fprintf(&b, "%soperator: %q\n", indent, op)
 	}
-	switch n := g.R.Intn(5); n {
-	case 0:
-		// no values at all
-	case 4:
+	// mostly the number of values the operator documents (so that the whole annotation passes validation and the
+	// expressions get evaluated), sometimes one off, rarely anything
+	n := g.R.Intn(4)
+	if !g.R.Chance(1, 8) {
+		want := map[string]int{"Equals": 1, "NotEqual": 1, "Matches": 1, "MatchesNot": 1, "Exists": 0, "NotExist": 0, "AlwaysTrue": 0, "In": 2, "NotIn": 2, "MatchesAny": 2, "MatchesNone": 2}
+		if w, ok := want[lastAffOp]; ok {
+			n = w
+			if g.R.Chance(1, 4) {
+				n += g.R.Range(-1, 1)
+				if n < 0 {
+					n = 0
+				}
+			}
+		}
+	}
+	switch {
+	case n == 0 && g.R.Chance(1, 2):
+		// no values key at all
+	case n == 0:
 		fmt.Fprintf(&b, "%svalues: []\n", indent)
 	default:
 		fmt.Fprintf(&b, "%svalues:\n", indent)
@@ -172,7 +198,7 @@ func (g *Gen) structuredAffinity() string {
 			}
 			fmt.Fprintf(&b, "%smatch:\n%s", first, g.affExpr("    "))
 			if g.R.Chance(2, 3) {
-				fmt.Fprintf(&b, "  weight: %s\n", sysgen.Pick(g.R, []string{"1", "0", "-1", "1000", "-1000", "99999999999", "x", "1.5"}))
+				fmt.Fprintf(&b, "  weight: %s\n", sysgen.Pick(g.R, []string{"1", "5", "0", "-1", "1000", "-1000", "10", "99999999999", "x", "1.5"}))
 			}
 		}
 	}
